@@ -38,6 +38,140 @@ fn default_port_of(scheme: &str) -> Option<u16> {
     }
 }
 
+/// Rust twin of the Coq class `known_c06_7` (Proofs/C06_SegPush.v, finding F-C06-7): a segment that
+/// `PathSegmentsMut::extend` does not skip (it is not literally "." / "..") whose TAB/LF/CR-free text is "." or "..".
+/// The parser's input drops TAB/LF/CR, the path state then reads a dot segment (".." pops the last segment).
+fn known_c06_7(seg: &str) -> bool {
+    let t: String = seg.chars().filter(|c| !matches!(c, '\t' | '\n' | '\r')).collect();
+    !matches!(seg, "." | "..") && matches!(t.as_str(), "." | "..")
+}
+
+/// one expected path segment: text kept from the old path, or the bytes a push must read back as once percent-decoded
+#[derive(Clone, Debug)]
+enum ExpSeg {
+    Raw(String),
+    Pushed(Vec<u8>),
+}
+impl ExpSeg {
+    fn is_empty(&self) -> bool {
+        match self {
+            ExpSeg::Raw(s) => s.is_empty(),
+            ExpSeg::Pushed(b) => b.is_empty(),
+        }
+    }
+}
+
+/// C06 frame of a path_segments_mut session on the SEGMENT LIST (C06_frame_segments_exact, stated independently of
+/// the model: split('/') of the path and percent-decoding as the oracle): clear leaves one empty segment, pop /
+/// pop_if_empty remove at most the last segment, push / extend append the segment (replace the single empty segment
+/// of the path "/") and touch no other one; a pushed segment reads back, percent-decoded, as the UTF-8 bytes of the
+/// argument without TAB/LF/CR and contains no '?' or '#'.
+/// Sessions pushing a segment of the known class F-C06-7 are skipped (KNOWN-FINDING replay in the known mode);
+/// file URLs are evaluated only for sessions without push / extend (drive-letter rewriting is outside the theorem).
+fn prop_c06_segments(before: &Url, ops: &[PsmOp], after: &Url) -> Option<String> {
+    let pushes = ops.iter().any(|o| matches!(o, PsmOp::Push(_) | PsmOp::Extend(_)));
+    if before.scheme() == "file" && pushes {
+        return None;
+    }
+    let mut segs: Option<Vec<ExpSeg>> = before.path_segments().map(|it| it.map(|s| ExpSeg::Raw(s.to_string())).collect());
+    let root = |v: &Option<Vec<ExpSeg>>| match v {
+        None => true,
+        Some(l) => l.len() == 1 && l[0].is_empty(),
+    };
+    let push = |segs: &mut Option<Vec<ExpSeg>>, s: &str| -> bool {
+        if matches!(s, "." | "..") {
+            return true;
+        }
+        if known_c06_7(s) {
+            return false;
+        }
+        let bytes: Vec<u8> = s.chars().filter(|c| !matches!(c, '\t' | '\n' | '\r')).collect::<String>().into_bytes();
+        if root(segs) {
+            *segs = Some(vec![ExpSeg::Pushed(bytes)]);
+        } else if let Some(l) = segs.as_mut() {
+            l.push(ExpSeg::Pushed(bytes));
+        }
+        true
+    };
+    for o in ops {
+        match o {
+            PsmOp::Clear => {
+                if segs.is_some() {
+                    segs = Some(vec![ExpSeg::Raw(String::new())]);
+                }
+            }
+            PsmOp::PopIfEmpty => {
+                if let Some(l) = segs.as_mut() {
+                    if l.len() > 1 && l[l.len() - 1].is_empty() {
+                        l.pop();
+                    }
+                }
+            }
+            PsmOp::Pop => {
+                if !root(&segs) {
+                    if let Some(l) = segs.as_mut() {
+                        l.pop();
+                        if l.is_empty() {
+                            l.push(ExpSeg::Raw(String::new()));
+                        }
+                    }
+                }
+            }
+            PsmOp::Push(s) => {
+                if !push(&mut segs, s) {
+                    return None;
+                }
+            }
+            PsmOp::Extend(ss) => {
+                for s in ss {
+                    if !push(&mut segs, s) {
+                        return None;
+                    }
+                }
+            }
+        }
+    }
+    let got: Option<Vec<String>> = after.path_segments().map(|it| it.map(|s| s.to_string()).collect());
+    let show = |e: &ExpSeg| match e {
+        ExpSeg::Raw(s) => format!("{:?}", s),
+        ExpSeg::Pushed(b) => format!("push:{:?}", String::from_utf8_lossy(b)),
+    };
+    let bad = |why: &str| {
+        Some(format!(
+            "path_segments_mut session: segments {:?} -> {:?}, expected [{}] ({})",
+            before.path_segments().map(|it| it.collect::<Vec<_>>()),
+            got,
+            segs.as_ref().map(|l| l.iter().map(show).collect::<Vec<_>>().join(", ")).unwrap_or_else(|| "no path".into()),
+            why
+        ))
+    };
+    match (&segs, &got) {
+        (None, None) => None,
+        (Some(e), Some(g)) => {
+            if e.len() != g.len() {
+                return bad("number of segments");
+            }
+            for (x, y) in e.iter().zip(g.iter()) {
+                match x {
+                    ExpSeg::Raw(s) => {
+                        if s != y {
+                            return bad("a segment that no operation names changed");
+                        }
+                    }
+                    ExpSeg::Pushed(b) => {
+                        let d: Vec<u8> = percent_encoding::percent_decode_str(y).collect();
+                        if &d != b || y.contains(|c: char| matches!(c, '?' | '#')) {
+                            return bad("a pushed segment does not read back as its argument");
+                        }
+                    }
+                }
+            }
+            None
+        }
+        _ => bad("path presence"),
+    }
+}
+
 /// get-after-set and couplings for one successful step, stated independently of the model
 fn prop_c06_get(before: &Url, op: &Op, after: &Url, status: &str) -> Option<String> {
     if status != "ok" {
@@ -116,6 +250,7 @@ fn prop_c06_get(before: &Url, op: &Op, after: &Url, status: &str) -> Option<Stri
                 return Some("set_password(None) left a password".into());
             }
         }
+        Op::Psm(ops) => return prop_c06_segments(before, ops, after),
         _ => {}
     }
     None
@@ -166,7 +301,9 @@ impl Ctx {
         let sig = format!("{}:{}:{}", op.kind(), status, shape(u));
         self.rep.case(stream, &req, &model, &imp, true, &sig);
         let differs = model != imp;
-        if self.search && (differs || std::env::var("VERIF_SEARCH_ALL").is_ok()) {
+        // development aid (with VERIF_SEARCH_ALL): VERIF_SEARCH_KIND=<operation kind> evaluates steps of that kind only
+        let kind_ok = std::env::var("VERIF_SEARCH_KIND").map_or(true, |k| op.kind() == k);
+        if self.search && kind_ok && (differs || std::env::var("VERIF_SEARCH_ALL").is_ok()) {
             let mut ops = prefix.to_vec();
             ops.push(op.clone());
             match &nu {
@@ -406,6 +543,10 @@ fn run_known(args: &Args) -> Report {
     // fixed (0cfc9d8): set_path on a cannot-be-a-base URL tested for the leading '/' before tab/LF/CR removal
     wit(&mut rep, "F-C06-6", &["C02", "C03", "C05", "C06"], "a:b", Op::SetPath("\t/ y".into()),
         &|u| !u.cannot_be_a_base() || u.as_str() == "a:/ y");
+    // open: push(".<TAB>.") is not skipped by extend() (only the literal "." / ".." are), the parser's input drops the
+    // TAB and the path state reads "..": the last segment is popped
+    wit(&mut rep, "F-C06-7", &["C06"], "http://h/a/b", Op::Psm(vec![PsmOp::Push(".\t.".into())]),
+        &|u| u.as_str() == "http://h/a/");
     rep
 }
 
